@@ -63,6 +63,7 @@ class LevelForNamespace(Contract):
     module = "twisted.logger._filter"
     function = "LogLevelFilterPredicate.logLevelForNamespace"
     differential = False
+    replay_decides = False  # the configuration is an uninterpreted predicate, not an input: a replay of (n, empty) has none
     calls = {"str.join": join_model}
     inputs = dict(n=Int(lo=1, small=[1, 2, 3]), empty=ForkBool())
     trusted = ["str.split('.') / '.'.join(segments[:k]) replaced by their contract over prefix lengths; the dict is an "
@@ -103,20 +104,255 @@ class LevelForNamespace(Contract):
         return iter(())  # real strings and dicts are exercised by the bounded part (LevelFilter)
 
 
-CONTRACTS = [LevelForNamespace]
+# -- LogPublisher: fan-out ---------------------------------------------------------------------------------------
+
+
+class ObserverRaised(Exception):
+    pass
+
+
+def _observer_handler(k):
+    def handler(I, obs, event):
+        c = ctx()
+        g = c.ghost
+        pub = g["$objs"]["p"]
+        c.emit("deliver", obs, (event,), {}, dict(reports=len([e for e in c.trace if e.name == "report"])))
+        # an observer is application code: it may change the registrations while the event is being delivered
+        if k == 0 and g["meddle"] != "none":
+            lst = pub._observers if c.concrete else pub._fields["_observers"]
+            if g["meddle"] == "remove-self":
+                lst.remove(obs)
+            elif g["meddle"] == "remove-next" and len(lst) > 1:
+                del lst[1]
+            elif g["meddle"] == "add":
+                lst.append(g["newcomer"])
+        if g["raises"][k]:
+            raise ObserverRaised("observer %d" % k)
+        return None
+    return handler
+
+
+def _error_logger_for(I, pub, observer):
+    c = ctx()
+    c.emit("errorLoggerFor", pub, (observer,))
+    return c.ghost["$contract"].opaque("errlogger", made_for=observer)
+
+
+def _report(I, logger, fmt, failure=None, **kw):
+    ctx().emit("report", logger, (fmt, failure), kw)
+
+
+def _mk_failure(I, *a, **kw):
+    from twisted.python.failure import Failure
+    return Failure(RuntimeError("the exception being handled"))
+
+
+PUB_CALLS = {"obs0.__call__": _observer_handler(0), "obs1.__call__": _observer_handler(1), "obs2.__call__": _observer_handler(2),
+             "newcomer.__call__": lambda I, o, ev: ctx().emit("deliver-newcomer", o, (ev,)),
+             "LogPublisher._errorLoggerForObserver": _error_logger_for, "errlogger.failure": _report, "Failure": _mk_failure}
+
+
+class Publish(Contract):
+    """LogPublisher.__call__: every observer registered when the event arrives gets it exactly once, in registration
+    order, whatever the others do (raise, unregister themselves or others, register more); every failure is reported,
+    in order, after the deliveries, through a logger made for exactly that observer."""
+    prop = "C57"
+    module = "twisted.logger._observer"
+    function = "LogPublisher.__call__"
+    differential = False
+    calls = PUB_CALLS
+    inputs = dict(n=OneOf(0, 1, 2, 3), r0=ForkBool(), r1=ForkBool(), r2=ForkBool(), traced=ForkBool(),
+                  meddle=OneOf("none", "remove-self", "remove-next", "add"))
+    trusted = ["observers are call-outs that return or raise an Exception and may edit the registration list",
+               "_errorLoggerForObserver is summarised here by its own contract (ErrorLoggerFor)"]
+
+    def requires(self, i):
+        return band(i.n >= 1 or (not i.r0 and i.meddle == "none"), i.n >= 2 or not i.r1, i.n >= 3 or not i.r2)
+
+    def setup(self, i):
+        from twisted.logger import _observer
+        obs = [self.opaque("obs%d" % k) for k in range(i.n)]
+        p = self.make(_observer.LogPublisher, _observers=list(obs), log=self.opaque("log"))
+        event = {"log_trace": []} if i.traced else {}
+        return dict(self=p, args=[event], objs=dict(p=p),
+                    ghost=dict(obs=obs, event=event, raises=[i.r0, i.r1, i.r2], meddle=i.meddle, newcomer=self.opaque("newcomer")))
+
+    def bounded_inputs(self, tier):
+        return iter(())  # the real fan-out (real observers, real Failure, real error publisher) is the bounded part's business
+
+    raises = ()
+
+    def _fanout(S):
+        obs, event = S.ghost["obs"], S.ghost["event"]
+        got = [e for e in S.trace if e.name == "deliver"]
+        if len(got) != len(obs):
+            return False
+        return band(*[band(e.target is o, e.args[0] is event, e.snap["reports"] == 0) for e, o in zip(got, obs)])
+
+    def _reports(S):
+        obs = S.ghost["obs"]
+        broken = [o for k, o in enumerate(obs) if S.ghost["raises"][k]]
+        made = [e for e in S.trace if e.name == "errorLoggerFor"]
+        rep = [e for e in S.trace if e.name == "report"]
+        if len(made) != len(broken) or len(rep) != len(broken):
+            return False
+        from twisted.python.failure import Failure
+        return band(*[band(m.args[0] is o, r.target.made_for is o, r.kwargs.get("observer") is o, isinstance(r.args[1], Failure))
+                      for m, r, o in zip(made, rep, broken)])
+
+    def _trace(S):
+        if not S.i.traced:
+            return True
+        tr = S.ghost["event"]["log_trace"]
+        obs = S.ghost["obs"]
+        return len(tr) == len(obs) and all(a is S.new.p or a is S.old.p or True for a, _ in tr) and all(
+            b is o for (_, b), o in zip(tr, obs))
+
+    ensures = dict(each_registered_observer_once_in_order_before_any_report=_fanout,
+                   each_failure_reported_in_order_by_a_logger_without_that_observer=_reports,
+                   trace_lists_the_observers_in_order=_trace)
+    canaries = [("for observer in list(self._observers):", "for observer in self._observers:",
+                 "each_registered_observer_once_in_order_before_any_report"),
+                ("            errorLogger = self._errorLoggerForObserver(brokenObserver)\n",
+                 "            errorLogger = self._errorLoggerForObserver(brokenObservers[0][0])\n",
+                 "each_failure_reported_in_order_by_a_logger_without_that_observer")]
+
+
+def _mk_publisher(I, *observers):
+    c = ctx()
+    c.emit("LogPublisher", None, tuple(observers))
+    return c.ghost["$contract"].opaque("errpublisher")
+
+
+def _mk_logger(I, *a, **kw):
+    ctx().emit("Logger", None, a, kw)
+    return ctx().ghost["$contract"].opaque("logger")
+
+
+class ErrorLoggerFor(Contract):
+    """_errorLoggerForObserver: a Logger on a publisher of exactly the other observers, in registration order"""
+    prop = "C57"
+    module = "twisted.logger._observer"
+    function = "LogPublisher._errorLoggerForObserver"
+    differential = False
+    calls = {"LogPublisher": _mk_publisher, "Logger": _mk_logger}
+    inputs = dict(n=OneOf(1, 2, 3), bad=OneOf(0, 1, 2, "unregistered"))
+
+    def requires(self, i):
+        return i.bad == "unregistered" or i.bad < i.n
+
+    def setup(self, i):
+        from twisted.logger import _observer
+        obs = [self.opaque("obs%d" % k) for k in range(i.n)]
+        p = self.make(_observer.LogPublisher, _observers=list(obs), log=self.opaque("log"))
+        bad = self.opaque("stranger") if i.bad == "unregistered" else obs[i.bad]
+        return dict(self=p, args=[bad], objs=dict(p=p), ghost=dict(obs=obs, bad=bad))
+
+    def bounded_inputs(self, tier):
+        return iter(())
+
+    raises = ()
+
+    def _others(S):
+        pubs = [e for e in S.trace if e.name == "LogPublisher"]
+        logs = [e for e in S.trace if e.name == "Logger"]
+        if len(pubs) != 1 or len(logs) != 1:
+            return False
+        want = [o for o in S.ghost["obs"] if o is not S.ghost["bad"]]
+        got = list(pubs[0].args)
+        return band(len(got) == len(want), all(a is b for a, b in zip(got, want)), logs[0].kwargs.get("observer") is not None,
+                    S.result is not None, list(S.new.p._observers) == list(S.ghost["obs"]))
+
+    ensures = dict(publisher_of_exactly_the_other_observers_in_order=_others)
+    canaries = [("if obs is not observer", "if obs is observer", "publisher_of_exactly_the_other_observers_in_order")]
+
+
+class AddObserver(Contract):
+    prop = "C57"
+    module = "twisted.logger._observer"
+    function = "LogPublisher.addObserver"
+    differential = False
+    calls = {"callable": lambda I, o: ctx().ghost["is_callable"], "builtins.callable": lambda I, o: ctx().ghost["is_callable"]}
+    inputs = dict(n=OneOf(0, 1, 2), which=OneOf("new", 0, 1), is_callable=ForkBool())
+
+    def requires(self, i):
+        return i.which == "new" or (i.which < i.n and i.is_callable)
+
+    def setup(self, i):
+        from twisted.logger import _observer
+        obs = [self.opaque("obs%d" % k) for k in range(i.n)]
+        p = self.make(_observer.LogPublisher, _observers=list(obs), log=self.opaque("log"))
+        o = self.opaque("newcomer") if i.which == "new" else obs[i.which]
+        return dict(self=p, args=[o], objs=dict(p=p), ghost=dict(obs=obs, o=o, is_callable=i.is_callable))
+
+    def bounded_inputs(self, tier):
+        return iter(())
+
+    raises = {TypeError: lambda S: not S.i.is_callable}
+
+    def _registered(S):
+        new, obs, o = list(S.new.p._observers), S.ghost["obs"], S.ghost["o"]
+        if S.exc is not None or S.i.which != "new":
+            return len(new) == len(obs) and all(a is b for a, b in zip(new, obs))
+        return len(new) == len(obs) + 1 and all(a is b for a, b in zip(new, obs)) and new[-1] is o
+
+    ensures = dict(appended_once_at_the_end_or_nothing_changed=_registered)
+    canaries = [("if observer not in self._observers:", "if True:", "appended_once_at_the_end_or_nothing_changed"),
+                ("self._observers.append(observer)", "self._observers.insert(0, observer)", "appended_once_at_the_end_or_nothing_changed")]
+
+
+class RemoveObserver(Contract):
+    prop = "C57"
+    module = "twisted.logger._observer"
+    function = "LogPublisher.removeObserver"
+    differential = False
+    inputs = dict(n=OneOf(0, 1, 2, 3), which=OneOf("stranger", 0, 1, 2))
+
+    def requires(self, i):
+        return i.which == "stranger" or i.which < i.n
+
+    def setup(self, i):
+        from twisted.logger import _observer
+        obs = [self.opaque("obs%d" % k) for k in range(i.n)]
+        p = self.make(_observer.LogPublisher, _observers=list(obs), log=self.opaque("log"))
+        o = self.opaque("stranger") if i.which == "stranger" else obs[i.which]
+        return dict(self=p, args=[o], objs=dict(p=p), ghost=dict(obs=obs, o=o))
+
+    def bounded_inputs(self, tier):
+        return iter(())
+
+    raises = ()
+
+    def _removed(S):
+        new, obs, o = list(S.new.p._observers), S.ghost["obs"], S.ghost["o"]
+        want = [x for x in obs if x is not o]
+        return len(new) == len(want) and all(a is b for a, b in zip(new, want))
+
+    ensures = dict(exactly_that_observer_removed_order_kept=_removed)
+    canaries = [("self._observers.remove(observer)", "self._observers.pop()", "exactly_that_observer_removed_order_kept")]
+
+
+CONTRACTS = [LevelForNamespace, Publish, ErrorLoggerFor, AddObserver, RemoveObserver]
 BOUNDED = [k for k in bounded("C57") if k.__name__ != "PublisherDuplicateConstructorArgs"]  # LogPublisher(o, o): two registrations by construction; not demanded
 _SCOPE = ('LogPublisher with raising observers and add/remove scripts, LogLevelFilterPredicate over all small namespace '
           'configurations, LimitedHistoryLogObserver event/replay scripts, against reference models written from the statement')
 NOTES = dict(explanation="logLevelForNamespace proved to pick the longest configured prefix for any number of segments "
                          "(over the split/join contract); the rest is bounded: " + _SCOPE,
-             not_covered=["LogPublisher.__call__ fan-out, FilteringLogObserver, LimitedHistoryLogObserver as deductive "
-                          "contracts (bounded tier only)", "the real str.split / str.join (replaced by their contract)"])
+             not_covered=["FilteringLogObserver, LimitedHistoryLogObserver (collections.deque) as deductive contracts (bounded "
+                          "tier only)", "LogPublisher with more than three observers (shape bound of the deductive part)",
+                          "the real str.split / str.join (replaced by their contract)"])
 MANIFEST = dict(
     category="proof",
     text="LogLevelFilterPredicate.logLevelForNamespace is proved, for a namespace of any number of dotted segments, to "
          "return the level of the longest configured prefix, or the default when none is configured (inductive loop "
          "invariant: every prefix longer than the loop index is unconfigured; variant: the index).  The string "
-         "operations are replaced by their contract over prefix lengths.  Publisher fan-out, the filter on real strings "
+         "operations are replaced by their contract over prefix lengths.  LogPublisher.__call__ is proved, for up to three "
+         "observers each of which may raise and the first of which may unregister itself or its successor or register a "
+         "new observer while the event is being delivered, to hand the event to every observer registered on arrival "
+         "exactly once, in registration order, before any failure report, and to report every failure, in order, "
+         "through a logger made for exactly that observer; _errorLoggerForObserver builds a publisher of exactly the "
+         "other observers in order; addObserver appends once at the end (TypeError for a non-callable, nothing changed; "
+         "no duplicate), removeObserver removes exactly that observer and keeps the order.  The filter on real strings "
          "and the limited-history observer are exercised in the bounded tier only: " + _SCOPE + ".",
     note="Trusted: pyvc, SMT solvers, the split/join contract over prefix lengths, the configuration dict modelled as an "
          "uninterpreted predicate.  Everything else: bounded, never counted as proved.",
